@@ -39,9 +39,11 @@ VARIABLES vstep,     \* [Conn -> {"Waiting","StartResp"}]      verify.step
           val,       \* 0 | 1   value of the writable, evented characteristic
           subs,      \* SUBSET Conn   connections subscribed to it
           cb,        \* 0..2   application callbacks fired (saturating)
+          cache,     \* [Conn -> name]  the first stored name a finish on this connection claimed: hidden state that only an
+                     \* implementation WITHOUT the guard key_looked_up_per_finish has (an entity cached per connection)
           last       \* the last step: [c, a, p, r, ev]  (r = reply class, ev = connections that got an EVENT)
 
-vars == <<vstep, exch, mode, verified, open, legitPaired, extra, val, subs, cb, last>>
+vars == <<vstep, exch, mode, verified, open, legitPaired, extra, val, subs, cb, cache, last>>
 
 Guard(g) == g \notin Weak
 ProtectedOps == {"GetAcc", "GetChar", "PutVal", "PutSub", "Resource", "AddPair", "RemPair"}
@@ -49,7 +51,7 @@ ProtectedOps == {"GetAcc", "GetChar", "PutVal", "PutSub", "Resource", "AddPair",
 Init == /\ vstep = [c \in Conn |-> "Waiting"] /\ exch = [c \in Conn |-> 0]
         /\ mode = [c \in Conn |-> "plain"] /\ verified = [c \in Conn |-> FALSE]
         /\ open = [c \in Conn |-> TRUE]
-        /\ legitPaired = TRUE /\ extra = FALSE /\ val = 0 /\ subs = {} /\ cb = 0
+        /\ legitPaired = TRUE /\ extra = FALSE /\ val = 0 /\ subs = {} /\ cb = 0 /\ cache = [c \in Conn |-> "none"]
         /\ last = [c |-> "none", a |-> "none", p |-> "none", f |-> "none", r |-> "none", ev |-> {}]
 
 Reply(c, a, p, f, r, ev) == last' = [c |-> c, a |-> a, p |-> p, f |-> f, r |-> r, ev |-> ev]
@@ -70,7 +72,7 @@ VStart(c, len) ==
      ELSE /\ vstep' = [vstep EXCEPT ![c] = "StartResp"]
           /\ exch' = [exch EXCEPT ![c] = @ + 1]
           /\ Reply(c, "VStart", len, "plain", "V2", {})
-  /\ UNCHANGED <<mode, verified, open, legitPaired, extra, val, subs, cb>>
+  /\ UNCHANGED <<mode, verified, open, legitPaired, extra, val, subs, cb, cache>>
 
 \* ---- pair-verify finish: :66-72 (defer reset), 145-199, and the endpoint's switch pair-verify.go:62-75
 \* kinds:  genuine   signed by the stored key of a paired name over this exchange's material
@@ -81,16 +83,25 @@ VStart(c, len) ==
 \*         unknown   names nobody stored
 \*         self      names the accessory's own id (which IS an entity in the database, hap/device.go:25-36)
 \*         reflect   names the accessory's own id and echoes the accessory's own signature from its start response
+\*         crossname names ANOTHER controller ("x", stored iff the extra pairing was added), signed by the legitimate
+\*                   controller's key over this exchange's material with the claimed name: one paired controller posing as another
 \*         badseal   box under a wrong key          short  box shorter than a tag     badtlv  garbage inside a good box
-NeedsSecret(kind) == kind \in {"genuine", "wrongkey", "stale", "reordered", "unknown", "self", "reflect", "badtlv"}
-SignatureValid(c, kind) == kind = "genuine" /\ c \in LegitConn /\ legitPaired
-NameKnown(c, kind) == \/ kind \in {"genuine", "wrongkey", "stale", "reordered"} /\ legitPaired
-                      \/ kind \in {"self", "reflect"}
+NeedsSecret(kind) == kind \in {"genuine", "wrongkey", "stale", "reordered", "unknown", "self", "reflect", "badtlv", "crossname"}
+NameOf(kind) == CASE kind \in {"genuine", "wrongkey", "stale", "reordered"} -> "legit"
+                  [] kind \in {"self", "reflect"} -> "acc"
+                  [] kind = "crossname" -> "x"
+                  [] OTHER -> "nobody"
+Stored(n) == (n = "legit" /\ legitPaired) \/ n = "acc" \/ (n = "x" /\ extra)
+\* the name whose stored key the signature is checked against
+KeyOf(c, kind) == IF Guard("key_looked_up_per_finish") \/ cache[c] = "none" THEN NameOf(kind) ELSE cache[c]
+\* genuine and crossname are signed with the legitimate controller's key over the right material (with the claimed name)
+SignatureValid(c, kind) == kind \in {"genuine", "crossname"} /\ c \in LegitConn /\ KeyOf(c, kind) = "legit" /\ legitPaired
+NameKnown(c, kind) == Stored(KeyOf(c, kind))
 
 VFinish(c, kind) ==
   /\ Plain(c) /\ kind \in FinishKinds
   /\ NeedsSecret(kind) => exch[c] > 0                           \* sealing needs the exchange's key
-  /\ kind \in {"genuine", "stale", "reordered"} => c \in LegitConn   \* needs the paired long-term secret key
+  /\ kind \in {"genuine", "stale", "reordered", "crossname"} => c \in LegitConn   \* needs the paired long-term secret key
   /\ kind = "stale" => exch[c] >= 2
   /\ kind = "replayed" => c \in EvilConn /\ \E l \in LegitConn : exch[l] > 0
   /\ vstep' = [vstep EXCEPT ![c] = "Waiting"]                    \* defer verify.reset()
@@ -103,11 +114,14 @@ VFinish(c, kind) ==
      ELSE IF SignatureValid(c, kind) \/ ~Guard("signature_checked")
      THEN /\ Reply(c, "VFinish", kind, "plain", "V4ok", {})
           /\ mode' = [mode EXCEPT ![c] = "enc"]
-          /\ verified' = [verified EXCEPT ![c] = SignatureValid(c, kind)]
+          /\ verified' = [verified EXCEPT ![c] = (kind = "genuine" /\ SignatureValid(c, kind))]
      ELSE \* known name, signature does not verify: state 4 + error 4
           /\ Reply(c, "VFinish", kind, "plain", "V4err", {})
           /\ mode' = [mode EXCEPT ![c] = IF Guard("session_installed_only_without_error") THEN "plain" ELSE "enc"]
           /\ UNCHANGED verified
+  /\ cache' = IF /\ vstep[c] = "StartResp" /\ kind \notin {"short", "badseal", "replayed", "badtlv"}
+                 /\ cache[c] = "none" /\ Stored(NameOf(kind))
+              THEN [cache EXCEPT ![c] = NameOf(kind)] ELSE cache
   /\ UNCHANGED <<exch, open, legitPaired, extra, val, subs, cb>>
 
 \* ---- pair-setup noise a peer without the setup code can produce; its effect on the store is C02's business,
@@ -115,7 +129,7 @@ VFinish(c, kind) ==
 PSNoise(c, kind) ==
   /\ Plain(c) /\ kind \in Noise
   /\ Reply(c, "PSNoise", kind, "plain", "Any", {})
-  /\ UNCHANGED <<vstep, exch, mode, verified, open, legitPaired, extra, val, subs, cb>>
+  /\ UNCHANGED <<vstep, exch, mode, verified, open, legitPaired, extra, val, subs, cb, cache>>
 
 \* ---- the gating layer
 Passes(c) == IF Guard("authenticate_checks_verified") THEN mode[c] = "enc" ELSE TRUE
@@ -150,13 +164,13 @@ Req(c, op, form) ==
                /\ Effect(c, op) /\ UNCHANGED open
      ELSE /\ Reply(c, "Req", op, form, "Served", IF op = "PutVal" THEN Targets(c) ELSE {})
           /\ Effect(c, op) /\ UNCHANGED open
-  /\ UNCHANGED <<vstep, exch, mode, verified>>
+  /\ UNCHANGED <<vstep, exch, mode, verified, cache>>
 
 \* the application changes the value: every open subscribed connection gets an EVENT
 LocalSet ==
   /\ val' = 1 - val
   /\ Reply("app", "LocalSet", "none", "none", "none", Targets("app"))
-  /\ UNCHANGED <<vstep, exch, mode, verified, open, legitPaired, extra, subs, cb>>
+  /\ UNCHANGED <<vstep, exch, mode, verified, open, legitPaired, extra, subs, cb, cache>>
 
 \* hap/connection.go:111-118
 Close(c) ==
@@ -164,7 +178,7 @@ Close(c) ==
   /\ open' = [open EXCEPT ![c] = FALSE]
   /\ subs' = subs \ {c}
   /\ Reply(c, "Close", "none", "none", "none", {})
-  /\ UNCHANGED <<vstep, exch, mode, verified, legitPaired, extra, val, cb>>
+  /\ UNCHANGED <<vstep, exch, mode, verified, legitPaired, extra, val, cb, cache>>
 
 Next == \/ \E c \in Conn :
              \/ \E len \in StartLens : VStart(c, len)
@@ -193,5 +207,5 @@ TypeOK == /\ vstep \in [Conn -> {"Waiting", "StartResp"}] /\ exch \in [Conn -> 0
           /\ mode \in [Conn -> {"plain", "enc"}] /\ verified \in [Conn -> BOOLEAN]
           /\ val \in {0, 1} /\ subs \subseteq Conn /\ cb \in 0..2
 
-View == <<vstep, exch, mode, verified, open, legitPaired, extra, val, subs, cb>>
+View == <<vstep, exch, mode, verified, open, legitPaired, extra, val, subs, cb, cache>>
 =======================================================================
